@@ -124,109 +124,126 @@ def _wrun(chunk):
 
 
 # ------------------------------------------------------------------ threads
-def thread_schedules(v, quick):
-    """two threads, each parsing then serialising ITS OWN packet of the same class, interleaved at field
-    boundaries (the get_fields() wrappers park a thread until the controller releases it)"""
-    from bind import declgen, observe
-    NOMV = {"kind": "none"}
-    NODESC = {"kind": "none"}
+def run_threads(cls, raws, order):
+    """Two threads, each parsing then serialising ITS OWN packet; the get_fields() wrappers park a thread before every
+    described field; `order` is the sequence of thread indices (0/1) to release, one field step each; afterwards both
+    run to the end.  -> [(status, bytes)] per thread"""
+    gates = [threading.Semaphore(0), threading.Semaphore(0)]
+    arrived = [threading.Semaphore(0), threading.Semaphore(0)]
+    done = [False, False]
+    results = [None, None]
+    tl = threading.local()
 
-    def u1(n):
-        return {"k": "Int", "name": n, "n": 1, "signed": False, "endian": "default", "dflt": 0, "mv": NOMV, "desc": NODESC}
-    decls = {
-        "plain": ({"C0": {"opts": {"endian": "none", "align": 0, "sbl": -1}, "fields": [
-            u1("n"), {"k": "Data", "name": "d", "size": {"m": "field", "f": "n"}, "dflt": [], "mv": NOMV},
-            {"k": "Data", "name": "m", "size": {"m": "marker", "b": [0], "incl": False, "consume": True}, "dflt": [], "mv": NOMV},
-            {"k": "Rep", "name": "r", "elem": u1("e"), "count": {"m": "expr", "e": {"e": "bin", "op": "add", "l": {"e": "f", "n": "n"}, "r": {"e": "c", "v": 1}}, "form": "deferred"},
-             "until": {"m": "none"}, "when": {"m": "none"}, "aligned": 0, "dflt": [], "mv": NOMV}, u1("z")]}},
-            [bytes([1, 65, 66, 0, 7, 8, 9]), bytes([2, 65, 66, 67, 67, 0, 1, 2, 3, 4])], False),
-        "regex": ({"C0": {"opts": {"endian": "none", "align": 0, "sbl": -1}, "fields": [
-            u1("n"), {"k": "Data", "name": "body", "size": {"m": "regex", "r": "crlf", "incl": False, "consume": True}, "dflt": [], "mv": NOMV}, u1("z")]}},
-            [bytes([1, 65, 13, 10, 2]), bytes([1, 66, 10, 3])], True),
-    }
+    def gate():
+        i = getattr(tl, "idx", None)
+        if i is None:
+            return
+        arrived[i].release()
+        gates[i].acquire()
+    lst = cls.get_fields()
+    orig = list(lst)
+    for j, (nm, f, pack, unpack) in enumerate(orig):
+        def mk(pack=pack, unpack=unpack):
+            def u(**k):
+                gate()
+                return unpack(**k)
+
+            def p(**k):
+                gate()
+                return pack(**k)
+            return p, u
+        p_, u_ = mk()
+        lst[j] = (nm, f, p_, u_)
+
+    def body(i):
+        tl.idx = i
+        try:
+            pkt = cls.unpack(raws[i])
+            results[i] = ("ok", list(pkt.pack()))
+        except Exception as ex:
+            results[i] = ("error", type(ex).__name__)
+        done[i] = True
+        arrived[i].release()
+    ths = [threading.Thread(target=body, args=(i,)) for i in (0, 1)]
+    for t in ths:
+        t.start()
+    for i in (0, 1):
+        arrived[i].acquire()      # both parked before their first field
+
+    def step(i):
+        if done[i]:
+            return
+        gates[i].release()
+        arrived[i].acquire()
+    try:
+        for i in order:
+            step(i)
+        while not done[0]:
+            step(0)
+        while not done[1]:
+            step(1)
+        for t in ths:
+            t.join()
+    finally:
+        lst[:] = orig
+    return results
+
+
+def thread_part(v, quick, seed):
+    """(1) TLC: every interleaving of the two machines sharing the registers (MC_Threads, merged states);
+    (2) TLC -simulate schedules with history forced on real threads at field boundaries;
+    (3) every schedule 'k1 field steps of thread 0, k2 of thread 1, then the rest' enumerated by the harness."""
+    from bind import declgen
     n = 0
     with declgen.Scratch() as sc:
-        for name, (decl, raws, f2) in decls.items():
-            mod = sc.load(decl, rp.GEN_OFF)
-            cls = mod.C0
+        for prog in ("plain", "regex"):
+            cfg = "SPECIFICATION Spec\nCONSTANTS Prog = \"%s\" KeepHist = %s\nINVARIANT Inv_C13_Threads\nINVARIANT Inv_C13_ThreadsPlain\n%s"
+            res = run_tlc("MC_Threads", cfg_text=cfg % (prog, "FALSE", ""), workers=4)
+            if res.violation:
+                raise common.MachineryFailure("MC_Threads(%s) violates %s" % (prog, res.violation["name"]))
+            v.add_tlc(res, "MC_Threads %s: every interleaving of two parse-then-serialise machines sharing the registers" % prog)
+            sim = run_tlc("MC_Threads", cfg_text=cfg % (prog, "TRUE", "INVARIANT Emit\n"), workers=4, simulate=10 if quick else 100,
+                          depth=120, seed=seed + 5, timeout=900)
+            if sim.violation:
+                raise common.MachineryFailure("MC_Threads(%s, simulate) violates %s" % (prog, sim.violation["name"]))
+            v.add_tlc(sim, "MC_Threads %s -simulate with history (schedules exported)" % prog, exhaustive=False)
+            if not sim.emits:
+                raise common.MachineryFailure("MC_Threads emitted no schedule")
+            decl = sim.emits[0]["decl"]
+            raws = [bytes(r) for r in sim.emits[0]["raws"]]
+            f2 = sim.emits[0]["f2"]
+            cls = sc.load(decl, rp.GEN_OFF, nonce=("threads", prog)).C0
             nf = len(cls.get_fields())
-            steps = 2 * nf        # unpack fields then pack fields
-            import itertools
-            scheds = []
-            for k1 in range(0, steps + 1, 1 if not quick else 2):
-                for k2 in range(0, steps + 1, 1 if not quick else 2):
-                    scheds.append((k1, k2))
-            for k1, k2 in scheds:
-                gates = [threading.Semaphore(0), threading.Semaphore(0)]
-                arrived = [threading.Semaphore(0), threading.Semaphore(0)]
-                done = [False, False]
-                results = [None, None]
-                tl = threading.local()
-
-                def gate():
-                    i = getattr(tl, "idx", None)
-                    if i is None:
-                        return
-                    arrived[i].release()
-                    gates[i].acquire()
-                lst = cls.get_fields()
-                orig = list(lst)
-                for j, (nm, f, pack, unpack) in enumerate(orig):
-                    def mk(pack=pack, unpack=unpack):
-                        def u(**k):
-                            gate()
-                            return unpack(**k)
-
-                        def p(**k):
-                            gate()
-                            return pack(**k)
-                        return p, u
-                    p_, u_ = mk()
-                    lst[j] = (nm, f, p_, u_)
-
-                def body(i):
-                    tl.idx = i
-                    try:
-                        pkt = cls.unpack(raws[i])
-                        results[i] = ("ok", list(pkt.pack()))
-                    except Exception as ex:
-                        results[i] = ("error", type(ex).__name__)
-                    done[i] = True
-                    arrived[i].release()
-                ths = [threading.Thread(target=body, args=(i,)) for i in (0, 1)]
-                for t in ths:
-                    t.start()
-                for i in (0, 1):
-                    arrived[i].acquire()      # both parked before their first field
-
-                def step(i):
-                    if done[i]:
-                        return
-                    gates[i].release()
-                    arrived[i].acquire()
-                for _ in range(k1):
-                    step(0)
-                for _ in range(k2):
-                    step(1)
-                while not done[0]:
-                    step(0)
-                while not done[1]:
-                    step(1)
-                for t in ths:
-                    t.join()
-                lst[:] = orig
+            orders = []
+            seen = set()
+            for b in sim.emits:
+                order = tuple(st["t"] - 1 for st in b["sched"] if st["k"] == "field")
+                if order not in seen:
+                    seen.add(order)
+                    orders.append(("tlc", list(order), [tuple([("ok" if o["ok"] else "error"), o["out"]]) for o in b["outs"]]))
+            for k1 in range(0, 2 * nf + 1, 1 if not quick else 2):
+                for k2 in range(0, 2 * nf + 1, 1 if not quick else 2):
+                    orders.append(("enum", [0] * k1 + [1] * k2, None))
+            for src, order, spec_outs in orders:
+                results = run_threads(cls, raws, order)
                 n += 1
-                v.count_case(("threads", name, k1, k2), nontrivial=True)
+                v.count_case(("threads", prog, tuple(order)), nontrivial=len(set(order)) == 2)
                 for i in (0, 1):
                     exp = ("ok", list(raws[i]))
-                    if results[i] != exp:
-                        clause = "C13_Threads"
-                        detail = "thread %d parsed and re-serialised its own packet as %r instead of %r (%d steps of thread 0, then %d of thread 1, then the rest)" % (
-                            i, results[i], exp, k1, k2)
+                    got = (results[i][0], results[i][1])
+                    if spec_outs is not None and not f2 and tuple(spec_outs[i]) != exp:
+                        raise common.MachineryFailure("MC_Threads predicts %r for thread %d" % (spec_outs[i], i))
+                    if got != exp:
+                        detail = "thread %d parsed and re-serialised its own packet as %r instead of %r under the %s schedule %r" % (
+                            i, got, exp, src, order)
                         if f2:
-                            v.deviation("F2", clause, detail, {"class": name, "schedule": [k1, k2]})
+                            # the specification says which outcome the schedule gives; the code must give the same
+                            if spec_outs is not None and (spec_outs[i][0], list(spec_outs[i][1])) != got:
+                                v.violation("C13_Threads", detail + " (specification: %r)" % (spec_outs[i],), {"program": prog, "order": order})
+                            else:
+                                v.deviation("F2", "Inv_C13_Threads", detail, {"program": prog, "order": order})
                         else:
-                            v.violation(clause, detail, {"class": name, "schedule": [k1, k2], "results": results})
+                            v.violation("C13_Threads", detail, {"program": prog, "order": order, "results": results})
     v.cov["thread_interleavings_executed"] = n
     v.cov["traces_validated_against_impl"] += n
 
@@ -270,7 +287,7 @@ def run(tier, seed):
         elif b["clause"] in ("C13_Bystander", "C13_NoSharing", "conf_touched", "conf_outcome", "harness_or_escape"):
             if len(v.violations) < 50:
                 v.violation(b["clause"] if b["clause"].startswith("C13") else "C13_Bystander", b["detail"], b)
-    thread_schedules(v, quick)
+    thread_part(v, quick, seed)
     v.cov["exhaustive"] = True
     v.cov["rule"] = ("TLC: all histories of <= 4 (5) operations over <= 2 (3) live packets for three programs (merged states, action "
                      "properties); every maximal history of 3 (4) operations executed on real objects x generic/generated code with the "
